@@ -1,14 +1,14 @@
 CONSTANTS FlawShallowListFreeze = FALSE
- FlawSharedConstants = TRUE
+ FlawSharedConstants = FALSE
  FlawInPlaceSort = FALSE
  FlawAppendSharesCapacity = FALSE
- FlawSortedAliasesOrdered = FALSE
+ FlawSortedAliasesOrdered = TRUE
  OnlyTargets = {}
  MaxMut = 2
- DeepVias = {"direct", "alias"}
- LastVias = {"arg", "compr", "loop"}
- Concurrent = TRUE
+ DeepVias = {"direct"}
+ LastVias = {"alias"}
+ Concurrent = FALSE
  Emit = FALSE
 SPECIFICATION Spec
-INVARIANTS Isolation
+INVARIANTS ExportsUnchanged
 CHECK_DEADLOCK FALSE
